@@ -774,7 +774,13 @@ func c01Bam(c *c01Case) interface{} {
 	}
 	snap := sink.bytes() // what a crash right after NewWriter leaves on disk
 	o := map[string]interface{}{"bam": true}
-	ps := c01ParseAll(snap, false)
+	ps := c01ParseAll(snap, true)
+	if len(ps.data) <= 6000 && ps.Err == "" {
+		// small headers: the members and the bytes, for the correspondence run of
+		// the model on the script Write(header); Flush; Wait
+		o["members"] = ps.Members
+		o["data"] = ints(ps.data)
+	}
 	o["parse_err"] = ps.Err
 	o["nmembers"] = len(ps.Members)
 	o["snap_len"] = len(snap)
